@@ -229,7 +229,8 @@ def proof_obligations(ctx):
             replace=["atoi"], loops=True, defines={"DISPATCH_C": inj}, termination=True, functions=["rtosc_match_number"],
             assumed=["atoi"], instr=nm, timeout=600),
         Obl("C05.rtosc_match_number.canary", "C05", P, entry="h_match_number", enforce="rtosc_match_number",
-            replace=["atoi"], loops=True, defines={"DISPATCH_C": inj}, instr=nm, timeout=600, canary=True),
+            replace=["atoi"], loops=True, defines={"DISPATCH_C": inj}, instr=nm, timeout=600, canary=True,
+            mode="bounded", bound="canary (vacuity guard)", replayable=False),
         # CaDiCaL: 266 s where MiniSat needed 580 s (same machine load); 6.7 GB
         Obl("C05.rtosc_match_path.contract", "C05", P, entry="h_match_path", enforce="rtosc_match_path",
             replace=["rtosc_match_options", "rtosc_match_number"], loops=True, defines={"DISPATCH_C": inj}, termination=True,
@@ -238,7 +239,8 @@ def proof_obligations(ctx):
             assumed=["rtosc_match_options beyond %d-byte strings" % n]),
         Obl("C05.rtosc_match_path.canary", "C05", P, entry="h_match_path", enforce="rtosc_match_path", canary=True,
             replace=["rtosc_match_options", "rtosc_match_number"], loops=True, defines={"DISPATCH_C": inj},
-            instr=nm, timeout=2400, mem_gb=12, cbmc=["--sat-solver", "cadical"]),
+            instr=nm, timeout=2400, mem_gb=12, cbmc=["--sat-solver", "cadical"],
+            mode="bounded", bound="canary (vacuity guard)", replayable=False),
         Obl("C05.rtosc_match_options.contract", "C05", P, termination=True, functions=["rtosc_match_options"],
             cbmc=["--unwind", str(n + 1), "--unwinding-assertions"], **opt),
         Obl("C05.rtosc_match_options.canary", "C05", P, canary=True, cbmc=["--unwind", str(n + 1)], **opt),
@@ -270,7 +272,7 @@ def match_obligations(ctx, normal, kfs):
     cb = ["a:i:f", "1/:i", "{a,b}::ii"]
     obls.append(Obl("C05.match.canary", "C05", H, entry="h_match_eq", canary=True, mode="bounded",
                     defines=dict(src_defines(ctx), C05_PATS=",".join(cstr(p) for p in cb), C05_NPAT=str(len(cb)), C05_AL="1"),
-                    bound="canary", cbmc=unwind_flags(cb, 1), timeout=300))
+                    bound="canary (vacuity guard)", cbmc=unwind_flags(cb, 1), timeout=300))
     # known signatures, each family twice: PART 0 = everything but the signature (must hold), PART 1 = only the signature
     kal = [1, 2, 3] if ctx.tier == "quick" else [1, 2, 3, 4, 5]
     kb = 5 if ctx.tier == "quick" else BATCH
@@ -324,7 +326,7 @@ def index_obligations(ctx):
                                       "every type string of 0..2 tags" % (pat, md, sl),
                                 cbmc=unwind_flags([pat], al), timeout=900,
                                 case={"pattern": pat, "digits_index": md, "address_bytes_after_index": sl}))
-    obls.append(Obl("C05.index.canary", "C05", H, entry="h_index", canary=True, mode="bounded", bound="canary",
+    obls.append(Obl("C05.index.canary", "C05", H, entry="h_index", canary=True, mode="bounded", bound="canary (vacuity guard)",
                     defines=dict(src_defines(ctx), C05_PAT=cstr("x#16"), C05_PRE_L="1", C05_MD="2", C05_SL="0"),
                     cbmc=unwind_flags(["x#16"], 3), timeout=300))
     return obls
@@ -344,7 +346,7 @@ def args_obligations(ctx):
                         bound="pattern %s on the exact-size message {%s ,%s}" % (pat, addr, types),
                         cbmc=unwind_flags([pat], len(addr)), timeout=300,
                         case={"pattern": pat, "address": addr, "types": types}))
-    obls.append(Obl("C05.args_exact.canary", "C05", H, entry="h_args_exact", canary=True, mode="bounded", bound="canary",
+    obls.append(Obl("C05.args_exact.canary", "C05", H, entry="h_args_exact", canary=True, mode="bounded", bound="canary (vacuity guard)",
                     defines=dict(src_defines(ctx), C05_PAT=cstr("a:iiii"), C05_ADDR=cstr("a"), C05_TYPES=cstr("T")),
                     cbmc=unwind_flags(["a:iiii"], 1), timeout=300))
     return obls
